@@ -703,6 +703,89 @@ def typed_case(r, nops):
     return "".join(L), "\n".join(exp) + "\n", kinds_used
 
 
+TEAM_HDR = ("struct Pt { int x; int y; };\nstruct Team { int n; Pt[2] ps; int[2] ys; };\n"
+            "int sum_ps(Team t) {\n    return t.ps[0].x * 1000 + t.ps[0].y * 100 + t.ps[1].x * 10 + t.ps[1].y;\n}\n"
+            "Team mk(int b) {\n    Team r;\n    r.n = b;\n    r.ps[0].x = b + 1;\n    r.ps[0].y = b + 2;\n    r.ps[1].x = b + 3;\n    r.ps[1].y = b + 4;\n"
+            "    r.ys[0] = b + 5;\n    r.ys[1] = b + 6;\n    return r;\n}\n"
+            "void set_ps(Team& t, int i, int v) {\n    t.ps[i].x = v;\n}\n")
+TEAM_FID = "struct_array_member_copies_stale"
+
+
+def team_case(r, nops, read_before_copy, script=None):
+    """a struct with a struct-array member (Pt[2] ps) next to a scalar and an int array: whole-struct copies (initialisation,
+    assignment, by-value parameter, function result) are complete and independent, element copies and element stores reach the
+    cell they name.  Shadow kept by the harness.  read_before_copy: the source is printed before every copy (the pinned tree
+    refreshed struct-array members of a struct only when it was read)"""
+    def fresh(b):
+        return {"n": b, "ps": [[b + 1, b + 2], [b + 3, b + 4]], "ys": [b + 5, b + 6]}
+
+    def clone(t):
+        return {"n": t["n"], "ps": [list(t["ps"][0]), list(t["ps"][1])], "ys": list(t["ys"])}
+    st = {"t1": fresh(0), "t2": fresh(50)}
+    def init_src(v, b):
+        return ("    Team %s;\n    %s.n = %d;\n    %s.ps[0].x = %d;\n    %s.ps[0].y = %d;\n    %s.ps[1].x = %d;\n    %s.ps[1].y = %d;\n    %s.ys[0] = %d;\n    %s.ys[1] = %d;\n"
+                % (v, v, b, v, b + 1, v, b + 2, v, b + 3, v, b + 4, v, b + 5, v, b + 6))
+    L = [TEAM_HDR, "int main() {\n" + init_src("t1", 0) + init_src("t2", 50) + "    Pt q;\n    q.x = -1;\n    q.y = -2;\n"]
+    qv = [-1, -2]
+    exp, kinds_used = [], []
+
+    def dump(v):
+        t = st[v]
+        L.append("    println(\"%s\", %s.n, %s.ps[0].x, %s.ps[0].y, %s.ps[1].x, %s.ps[1].y, %s.ys[0], %s.ys[1]);\n" % (v, v, v, v, v, v, v, v))
+        exp.append("%s %d %d %d %d %d %d %d" % (v, t["n"], t["ps"][0][0], t["ps"][0][1], t["ps"][1][0], t["ps"][1][1], t["ys"][0], t["ys"][1]))
+
+    def dump_all():
+        dump("t1"); dump("t2")
+        L.append("    println(\"S\", sum_ps(t1), sum_ps(t2), q.x, q.y);\n")
+        exp.append("S %d %d %d %d" % tuple([st[v]["ps"][0][0] * 1000 + st[v]["ps"][0][1] * 100 + st[v]["ps"][1][0] * 10 + st[v]["ps"][1][1] for v in ("t1", "t2")] + qv))
+    dump_all()
+    nloc = [0]
+    for _ in range(len(script) if script else nops):
+        k = r.below(10)
+        v = r.choice(["t1", "t2"])
+        if script:
+            k, v = script[_]
+        o = "t2" if v == "t1" else "t1"
+        i, val = r.below(2), r.range(1, 9)
+        if k in (2, 3, 4) and read_before_copy:
+            dump(o)
+        if k == 0:
+            L.append("    %s.ps[%d].x = %d;\n" % (v, i, val)); st[v]["ps"][i][0] = val; kinds_used.append("elem_member_store")
+        elif k == 1:
+            L.append("    %s.ps[%d].y += %d;\n    %s.ys[%d] = %d;\n    %s.n++;\n" % (v, i, val, v, i, val, v)); st[v]["ps"][i][1] += val; st[v]["ys"][i] = val; st[v]["n"] += 1; kinds_used.append("elem_member_compound")
+        elif k == 2:
+            L.append("    %s = %s;\n" % (v, o)); st[v] = clone(st[o]); kinds_used.append("assign_copy")
+        elif k == 3:
+            nloc[0] += 1
+            n_ = "c%d" % nloc[0]
+            decl = "    Team %s = %s;\n" % (n_, o) if r.below(2) else "    Team %s;\n    %s = %s;\n" % (n_, n_, o)
+            L.append(decl + "    %s.ps[%d].x = %d;\n    println(\"L\", %s.n, %s.ps[0].x, %s.ps[0].y, %s.ps[1].x, %s.ps[1].y, %s.ys[1]);\n" % (n_, i, 70 + val, n_, n_, n_, n_, n_, n_))
+            c_ = clone(st[o]); c_["ps"][i][0] = 70 + val
+            exp.append("L %d %d %d %d %d %d" % (c_["n"], c_["ps"][0][0], c_["ps"][0][1], c_["ps"][1][0], c_["ps"][1][1], c_["ys"][1])); kinds_used.append("init_copy")
+        elif k == 4:
+            L.append("    %s = mk(%d);\n" % (v, val * 100)); st[v] = fresh(val * 100); kinds_used.append("assign_result")
+        elif k == 5:
+            L.append("    q = %s.ps[%d];\n" % (v, i)); qv[:] = st[v]["ps"][i]; kinds_used.append("elem_copy_out")
+        elif k == 6:
+            L.append("    %s.ps[%d] = q;\n" % (v, i)); st[v]["ps"][i] = list(qv); kinds_used.append("elem_store_whole")
+        elif k == 7:
+            # (a store through a Team& parameter, t.ps[i].x = v, is rejected by the implementation: "Array member not found")
+            L.append("    %s.ps[%d].x--;\n" % (v, i)); st[v]["ps"][i][0] -= 1; kinds_used.append("elem_member_decr")
+        elif k == 8:
+            L.append("    q.x = %d;\n" % (90 + val)); qv[0] = 90 + val; kinds_used.append("q_store")
+        else:
+            L.append("    %s.ps[%d].x = %s.ps[%d].y;\n" % (v, i, o, 1 - i)); st[v]["ps"][i][0] = st[o]["ps"][1 - i][1]; kinds_used.append("cross_member_copy")
+        # with read_before_copy the state is read after every operation; without it only after every third one, so that copies
+        # are made of values that were written but not read since
+        if read_before_copy or (_ % 3) == 2:
+            dump_all()
+    if not read_before_copy:
+        dump_all()
+    L.append("    println(\"END\");\n    return 0;\n}\n")
+    exp.append("END")
+    return "".join(L), "\n".join(exp) + "\n", kinds_used + ([] if read_before_copy else ["(no-reads-between)"])
+
+
 def first_diff(exp, got):
     e, g = exp.split("\n"), got.split("\n")
     for i in range(max(len(e), len(g))):
@@ -839,6 +922,31 @@ def main(a):
             census.setdefault(("typed", tuple(kinds_used[:1]), o[1]), []).append("%s | %s" % (kinds_used, d))
             continue
         report("typed-members", "after %s: first difference at line %s: expected %r got %r (%s)" % (
+            kinds_used, d[0] if d else "-", d[1] if d else "", d[2] if d else "", o[1]),
+            {"program": src, "expected_stdout": exp, "impl_stdout": o[0], "impl_exit_class": o[1], "impl_stderr": o[2][-300:], "ops": kinds_used})
+    # ---- a struct with a struct-array member: whole copies, element copies, element stores
+    kn = 60 if quick else 6000
+    kcases = [team_case(r, 1 if k < kn // 3 else r.range(2, 7), k % 2 == 0) for k in range(kn)]
+    # every kind of store into t1 directly followed (no read in between) by every kind of copy out of t1
+    for a_ in (0, 1, 4, 6, 7, 9):
+        for b_ in (2, 3, 3, 5):
+            for rep_ in range(2):
+                kcases.append(team_case(r, 2, False, script=[(a_, "t1"), (b_, "t2")]))
+    kouts = common.run_programs(exe, [c[0] for c in kcases], timeout=10)
+    dist["struct-array-members"] = len(kcases)
+    team_listed = any(f["id"] == TEAM_FID for f in findings)
+    for (src, exp, kinds_used), o in zip(kcases, kouts):
+        nontrivial.add(("team", tuple(kinds_used)))
+        if o[0] == exp and o[1] == "ok":
+            continue
+        d = first_diff(exp, o[0])
+        if os.environ.get("CB_VERIF_CENSUS"):
+            census.setdefault(("team", tuple(kinds_used[:1]), o[1]), []).append("%s | %s" % (kinds_used, d))
+            continue
+        if team_listed and o[1] == "ok" and ("assign_copy" in kinds_used or "init_copy" in kinds_used) and "(no-reads-between)" in kinds_used:
+            cell_known[TEAM_FID] = cell_known.get(TEAM_FID, 0) + 1
+            continue
+        report("struct-array-members", "after %s: first difference at line %s: expected %r got %r (%s)" % (
             kinds_used, d[0] if d else "-", d[1] if d else "", d[2] if d else "", o[1]),
             {"program": src, "expected_stdout": exp, "impl_stdout": o[0], "impl_exit_class": o[1], "impl_stderr": o[2][-300:], "ops": kinds_used})
     for key, whats in sorted(census.items(), key=lambda kv: str(kv[0])):
